@@ -884,3 +884,56 @@ Proof.
   destruct (Hfind lo Hlo) as (n1 & d1 & H1 & E1). destruct (Hfind hi Hhi) as (n2 & d2 & H2 & E2).
   exists n1, d1, n2, d2, lo, hi. auto.
 Qed.
+
+(* v1 latest block, end to end: the parser only keeps observations whose block lists have no duplicate numbers; with at most
+   f faulty senders the consensus block is one that some correct node's data source listed *)
+Lemma has_dup_by_false_NoDup {A} (eqb : A -> A -> bool) (l : list A) : (forall x, eqb x x = true) ->
+  has_dup_by eqb l = false -> List.NoDup l.
+Proof.
+  intros Hrefl. induction l as [|x l IH]; intros H; [constructor|]. cbn [has_dup_by] in H. apply Bool.orb_false_iff in H. destruct H as [H1 H2].
+  constructor; [|exact (IH H2)]. intros Hin. assert (existsb (eqb x) l = true) by (apply existsb_exists; exists x; split; [exact Hin|apply Hrefl]). congruence.
+Qed.
+Lemma parse1_nodup m p : parse1 m = Some p -> List.NoDup (obs_blocks (q_blocks p)).
+Proof.
+  unfold parse1. destruct (dec_opt _ (m1_bm m)); [|discriminate]. destruct (dec_opt _ (m1_bid m)); [|discriminate].
+  destruct (dec_opt _ (m1_ask m)); [|discriminate].
+  destruct (m1_blocks m) as [|b0 bl] eqn:Eb.
+  - destruct (if m1_cur_valid m then _ else true); [|discriminate]. intros H; inversion H; subst. unfold obs_blocks. cbn [q_blocks fst snd].
+    destruct (m1_cur_valid m); [constructor; [intros []|constructor]|constructor].
+  - match goal with |- (if ?c then _ else _) = _ -> _ => destruct c eqn:Ec; [|discriminate] end.
+    intros H; inversion H; subst. unfold obs_blocks. cbn [q_blocks fst snd].
+    rewrite !Bool.andb_true_iff in Ec. destruct Ec as [[[_ Hn] _] _]. apply Bool.negb_true_iff in Hn.
+    apply (has_dup_by_false_NoDup (fun a b => bnum a =? bnum b)); [intros x; apply Z.eqb_refl|exact Hn].
+Qed.
+
+Lemma received_v1_faulty_le ss :
+  (length (filter (fun p : pao1 * bool => negb (snd p)) (received_v1 ss)) <= length (filter (fun s => negb (is_correct1 s)) ss))%nat.
+Proof.
+  unfold received_v1. induction ss as [|s ss IH]; [cbn; lia|]. cbn [MercuryReport.omap filter].
+  destruct (received1_1 s) as [[p t]|] eqn:E.
+  - assert (Ht : t = is_correct1 s).
+    { unfold received1_1 in E. destruct (sent1 s) as [b|]; [|discriminate]. destruct (merc_decode1 b) as [m|]; [|discriminate].
+      destruct (parse1 m); [|discriminate]. inversion E; reflexivity. }
+    rewrite Ht. cbn [filter snd]. destruct (negb (is_correct1 s)); cbn [length]; lia.
+  - destruct (negb (is_correct1 s)); cbn [length]; lia.
+Qed.
+
+Theorem consensus_block_from_a_correct_data_source ss f b : senders1_ok ss ->
+  (length (filter (fun s => negb (is_correct1 s)) ss) <= f)%nat ->
+  let tobs := map (fun pt => (q_blocks (fst pt), snd pt)) (received_v1 ss) in
+  latest_block (map fst tobs) f = Ok b ->
+  exists n pn d, In (Correct1 n pn d) ss /\ In b (obs_blocks (d1_blocks d, if cur1_valid d then Some (cur1 d) else None)).
+Proof.
+  intros Hok Hf tobs Hc.
+  assert (Hnd : forall o hh, In (o, hh) tobs -> List.NoDup (obs_blocks o)).
+  { intros o hh Hin. subst tobs. apply in_map_iff in Hin. destruct Hin as ([p t] & Hpt & Hin). cbn [fst snd] in Hpt. inversion Hpt; subst.
+    destruct (in_omap _ _ _ Hin) as (s & _ & Hr). unfold received1_1 in Hr. destruct (sent1 s) as [bs|]; [|discriminate].
+    destruct (merc_decode1 bs) as [m|]; [|discriminate]. destruct (parse1 m) as [p'|] eqn:Ep; [|discriminate]. inversion Hr; subst.
+    exact (parse1_nodup m p Ep). }
+  assert (Hfl : (length (filter (fun p : (list block * option block) * bool => negb (snd p)) tobs) <= f)%nat).
+  { subst tobs. rewrite (faulty_count_map_tag q_blocks). etransitivity; [apply received_v1_faulty_le|exact Hf]. }
+  destruct (latest_block_honest_witness tobs f b Hnd Hfl Hc) as (o & Hin & Hb).
+  subst tobs. apply in_map_iff in Hin. destruct Hin as ([p t] & Hpt & Hin). cbn [fst snd] in Hpt. inversion Hpt; subst.
+  destruct (received_v1_correct ss p Hok Hin) as (n & pn & d & Hs & _ & ->).
+  exists n, pn, d. split; [exact Hs|]. exact Hb.
+Qed.
